@@ -65,6 +65,36 @@ def _small(d, hi):
     raise HarnessError("offset outside segment")
 
 
+def _is_real_bytes(s):
+    """type() is patched by CrossHair to answer ``bytes`` for symbolic byte strings too."""
+    try:
+        from crosshair.tracers import NoTracing, is_tracing
+    except ImportError:
+        return type(s) is bytes
+    if not is_tracing():
+        return type(s) is bytes
+    with NoTracing():
+        return type(s) is bytes
+
+
+def _seg_find(s, needle):
+    """find() that stays symbolic: ``find``/``in`` on CrossHair's symbolic bytes make the
+    engine realise every byte, an element-wise scan forks only on the symbolic positions."""
+    if _is_real_bytes(s):
+        return s.find(needle)
+    n = len(s)
+    m = len(needle)
+    for j in range(n - m + 1):
+        hit = True
+        for q in range(m):
+            if s[j + q] != needle[q]:
+                hit = False
+                break
+        if hit:
+            return j
+    return -1
+
+
 class SymBuf(bytes):
     def __new__(cls, segs=()):
         o = bytes.__new__(cls)
@@ -107,7 +137,7 @@ class SymBuf(bytes):
             if _is_fill(s):
                 off = off + s.n
             else:
-                i = s.find(needle)
+                i = _seg_find(s, needle)
                 if i >= 0:
                     return off + i
                 off = off + len(s)
@@ -188,11 +218,17 @@ class SymBuf(bytes):
     # ---- conversion -------------------------------------------------------------------
     def decode(self, enc="utf-8", errors="strict"):
         out = b""
+        has_fill = False
         for s in self.segs:
             if _is_fill(s):
                 out = out + FILL_BYTE * 3
+                has_fill = True
             else:
                 out = out + s
+        if not has_fill:
+            # no length abstraction involved: hand back the (possibly symbolic) str itself;
+            # building a str subclass from a symbolic str would concretise it
+            return out.decode(enc, errors)
         return FillStr(out.decode(enc, errors), self)
 
     def concrete(self):
